@@ -78,6 +78,18 @@ def families(tier):
         out.append(dict(prop='C15', family='c15.idle.race_after_idle', id=f'c15/race-{warm}-a{n_actor}-{hshape}', cfg=dict(cfg, bound=3 if not deep else 4, cap=6000 if not deep else 60000),
                         params=dict(ps='race', when='after', tmo=None),
                         scn=dict(buses={'A': {}}, order=['A'], handlers=hs, main=main, actors=[actor], forwards=[], settle=2.0)))
+    # a handler of A (0.5 s time-out) awaits a child on the parallel_handlers bus B; both handlers of the child are running when the time-out interrupts the child, and
+    # one of them needs 0.3 s to clean up after being cancelled: B is idle only when that handler has really stopped
+    for which_slow, when in itertools.product(('first', 'second', 'both'), ('before', 'during')):
+        slow, plain = [('guarded_pause', 0.3), ('ret', 1)], [('pause',), ('ret', 2)]
+        hs = [dict(bus='A', pat='P', name='hp', prog=[('disp', 'B', 'C', 'await'), ('ret', 0)]),
+              dict(bus='B', pat='C', name='hc1', prog=slow if which_slow in ('first', 'both') else plain), dict(bus='B', pat='C', name='hc2', prog=slow if which_slow in ('second', 'both') else plain),
+              dict(bus='A', pat='X', name='hxA', prog=[('ret', 0)]), dict(bus='B', pat='X', name='hxB', prog=[('ret', 0)])]
+        main = [('disp', 'A', 'P', 'ff', {'timeout': 0.5})] + ([('sleep', 0.45)] if when == 'during' else [('pause',)]) + [('idle', 'B'), ('idle', 'A')]
+        for order in (['A', 'B'], ['B', 'A']):
+            out.append(dict(prop='C15', family='c15.idle.interrupted_handlers_still_cleaning_up', id=f'c15/cleanup-{which_slow}-{when}-o{"".join(order)}', cfg=dict(cfg, window=1.2, max_targets=3),
+                            params=dict(ps='cleanup', when='paused', tmo=None),
+                            scn=dict(buses={'A': {}, 'B': dict(parallel=True)}, order=order, handlers=hs, main=main, actors=[], forwards=[], settle=2.0)))
     # an event accepted by A (which has no handler for it, or one) is also offered to B, and B refuses it - B was stopped, or its queue is full
     # (tiny history, 50 queued): whatever the refusal did to the event, A must still go idle
     for why, has_handler, order_first in itertools.product(('stopped', 'full'), (False, True), ('A_first', 'B_first')):
